@@ -210,7 +210,7 @@ def run(ctx):
                     bad5["visit-guard"] = "an empty bucket (key == NULL) is exported"
                 continue
             nvis += len(adds_)
-            if not adds_ or not re.match(r"^&h->table\[\w+\]$", adds_[0][1][2][1]) or pt.events.index(hk[0]) > adds_[0][0]:
+            if not adds_ or not re.match(r"^(&h->table\[\w+\]|h->table \+ \w+)$", adds_[0][1][2][1]) or pt.events.index(hk[0]) > adds_[0][0]:
                 bad5["two-visits"] = "a bucket with a key does not export its head slot first"
                 continue
             for n_, (i_, ev_) in enumerate(adds_):
@@ -306,7 +306,7 @@ def run(ctx):
                     before = [x for x in pt.events[:i_] if x[0] == "branch"]
                     if mode is None or mode != (ev_[1] == "keycmp_nocase"):
                         bad6[ev_[1] + ":mode"] = "%s is used in the wrong case mode" % ev_[1]
-                    if len(ev_[2]) != 2 or ev_[2][1] != "key" or not (E.startswith("&") or any(x[1] == ("nz", E) and x[2] for x in before)):
+                    if len(ev_[2]) != 2 or ev_[2][1] != "key" or not (E.startswith("&") or re.match(r"^h->table \+ \w+$", E) or any(x[1] == ("nz", E) and x[2] for x in before)):
                         bad6[ev_[1] + ":args"] = "comparator called as %s(%s) on an entry not known to exist" % (ev_[1], ", ".join(ev_[2]))
                     lk_ = ("==",) + tuple(sorted((symx.field_of(E, "len"), "len")))
                     if not any(x[1] == lk_ and x[2] for x in before):
